@@ -8,6 +8,9 @@ SPEC = dict(
              instances=[I(e) for e in SM]),
         dict(name='utils', harness='h_utils.cpp', tus=['src/base/QXmppUtils.cpp'], models=['qt_core.c', 'qt_dom.c'],
              instances=[I(e, bound='whole value range of the integer type') for e in ['int_u8', 'int_i8', 'int_u16', 'int_i16', 'int_u32', 'int_i32', 'int_u64', 'int_i64', 'int_range', 'bool']]),
+        dict(name='sasl', harness='h_sasl.cpp', tus=['src/base/QXmppSasl.cpp', 'src/base/QXmppStreamManagement.cpp', 'src/base/QXmppUtils.cpp'], models=['qt_core.c', 'qt_list.c', 'qt_dom.c'],
+             instances=[I(e, unwind=10) for e in ['sasl_auth', 'sasl_challenge', 'sasl_response', 'sasl_success', 'sasl_failure', 'bind2_feature', 'bind2_request', 'bind2_bound', 'fast_feature',
+                                                  'fast_token_request', 'fast_request', 'sasl2_challenge', 'sasl2_response', 'sasl2_failure', 'sasl2_continue', 'sasl2_abort', 'sasl2_success', 'sasl2_authenticate']]),
     ],
     bounds=[], assumptions=[], outside=[],
 )
